@@ -91,10 +91,101 @@ def load_facts(root=None, release=False):
                 docs.append(json.load(fh))
         fx = Facts(docs)
         fx.lib_doc()
+        look_through_mir(fx)
         _cache[key] = fx
         return fx
     finally:
         shutil.rmtree(tdir, ignore_errors=True)
+
+
+# ----------------------------------------------------------------------------- helper look-through (MIR inlining)
+
+def _shift(node, loff, boff, ret_target, dest):
+    """deep copy of a MIR JSON fragment with locals shifted by loff and block ids by boff"""
+    if isinstance(node, list):
+        return [_shift(x, loff, boff, ret_target, dest) for x in node]
+    if not isinstance(node, dict):
+        return node
+    out = {}
+    for k, v in node.items():
+        if k == "local" and isinstance(v, int):
+            out[k] = v + loff
+        elif k in ("target", "otherwise") and isinstance(v, int) and node.get("k") in ("goto", "call", "assert", "switch", "drop", "tailcall"):
+            out[k] = v + boff
+        elif k == "targets" and node.get("k") == "switch":
+            out[k] = [[x[0], x[1] + boff] for x in v]
+        else:
+            out[k] = _shift(v, loff, boff, ret_target, dest)
+    return out
+
+
+def inline_call(F, bi, G):
+    """splice the body of G into F at the call terminating block bi (in place)"""
+    t = F["blocks"][bi]["term"]
+    loff, boff = len(F["locals"]), len(F["blocks"])
+    F["locals"].extend([dict(l, inlined_from=G["name"]) for l in G["locals"]])
+    line = t.get("line")
+    # arguments -> parameter locals
+    pre = []
+    for i, a in enumerate(t["args"]):
+        pre.append({"k": "assign", "place": {"local": loff + 1 + i, "proj": []}, "rv": {"k": "use", "op": a}, "line": line, "inlined_arg": True})
+    F["blocks"][bi]["stmts"].extend(pre)
+    # continuation: dest = return value; goto target
+    cont = len(F["blocks"]) + len(G["blocks"])
+    for b in G["blocks"]:
+        nb = _shift(b, loff, boff, None, None)
+        if nb["term"]["k"] == "return":
+            nb["term"] = {"k": "goto", "target": cont}
+        elif nb["term"]["k"] == "tailcall":
+            raise ValueError("tail call in an inlined helper")
+        F["blocks"].append(nb)
+    after = {"cleanup": False, "stmts": [{"k": "assign", "place": t["dest"], "rv": {"k": "use", "op": {"k": "move", "place": {"local": loff, "proj": []}}}, "line": line, "inlined_ret": True}],
+             "term": {"k": "goto", "target": t["target"]} if t.get("target") is not None else {"k": "unreachable"}}
+    F["blocks"].append(after)
+    F["blocks"][bi]["term"] = {"k": "goto", "target": boff, "inlined_call": G["name"], "line": line}
+    F.setdefault("inlined", []).append(G["name"])
+
+
+def look_through_mir(fx):
+    """Library functions that are not in the vocabulary the rules were confirmed against (lib/vocab.json, key `mir:lib`) are
+    inlined into their callers, so that the dominance / provenance rules see the same control flow after a helper was extracted."""
+    if os.environ.get("HPBF_NO_LOOKTHROUGH"):
+        return
+    vp = os.path.join(os.path.dirname(os.path.abspath(__file__)), "vocab.json")
+    with open(vp) as fh:
+        vocab = json.load(fh)
+    known = set(vocab.get("mir:lib", []))
+    if not known:
+        raise CheckerError("lib/vocab.json has no MIR vocabulary (tools/gen_vocab.py)")
+    byname = {}
+    for f in fx.functions("lib"):
+        byname.setdefault(f["name"], f)
+    new = {n for n, f in byname.items() if strip_generics(n) not in known and f["kind"] in ("Fn", "AssocFn") and "::tests::" not in n}
+    fx.looked_through = {"new": sorted(new), "inlined": []}
+    if not new:
+        return
+    for rnd in range(3):
+        changed = False
+        for f in fx.functions("lib"):
+            if "::tests::" in f["name"]:
+                continue
+            for bi in range(len(f["blocks"])):
+                t = f["blocks"][bi]["term"]
+                if t["k"] != "call":
+                    continue
+                tgt = t["func"].get("resolved") or t["func"].get("fn")
+                if tgt in new and tgt != f["name"] and tgt in byname:
+                    g = byname[tgt]
+                    if any(b["term"]["k"] == "call" and (b["term"]["func"].get("resolved") or b["term"]["func"].get("fn")) == tgt for b in g["blocks"]):
+                        continue    # recursive helper: leave it
+                    try:
+                        inline_call(f, bi, g)
+                        fx.looked_through["inlined"].append((f["name"], tgt))
+                        changed = True
+                    except ValueError:
+                        pass
+        if not changed:
+            break
 
 
 # ----------------------------------------------------------------------------- CFG utilities
